@@ -100,9 +100,10 @@ pub fn scene(k: usize) -> Scene {
                 sensor_vendor: Some("v\u{e9}ndor".into()),
                 sensor_model: Some("m\u{10000}".into()),
                 sensor_serial: Some("  s  ".into()),
-                sensor_hw: Some("hw".into()),
-                sensor_sw: Some("sw".into()),
-                sensor_fw: Some("fw".into()),
+                // the edges of the XML Char production and the C1 controls (legal, rarely seen)
+                sensor_hw: Some("hw\u{7f}\u{80}\u{85}\u{9f}\u{a0}".into()),
+                sensor_sw: Some("sw\u{2028}\u{2029}\u{fdd0}\u{fffd}".into()),
+                sensor_fw: Some("fw\u{e000}\u{1fffe}\u{10ffff}".into()),
                 temperature: Some(-273.15),
                 humidity: Some(0.0),
                 pressure: Some(1e5),
